@@ -8,6 +8,7 @@ import (
 	"go/constant"
 	"go/parser"
 	"go/token"
+	"go/types"
 	"os"
 	"path/filepath"
 	"runtime"
@@ -252,10 +253,56 @@ func checkC17(c *Ctx, r *Report) {
 		return
 	}
 	r.SawFunc(parse)
-	c.checkRecover(r, parse)
-	c.checkParseReturns(r, parse)
+	exprOK := c.checkExprSemantics(r, "C17.parse-values")
+	if exprOK {
+		r.Decide([]string{"C17.keys:", "C17.alternatives:", "C17.escapes:", "C17.input:", "C17.returns:", "C17.anchor:"}, nil,
+			"Parse evaluated through the generated lexer/parser and the ANTLR runtime on generated well-formed and malformed inputs and compared with the reference flattening")
+	}
+	// Parse may delegate to a core function (a wrapper passing its input on and returning the results unchanged)
+	core := parse
+	for i := 0; i < 3; i++ {
+		hasStream := false
+		var only *ssa.Function
+		nCalls := 0
+		eachInstr(core, func(in ssa.Instruction) {
+			if call, ok := in.(*ssa.Call); ok {
+				if sc := call.Common().StaticCallee(); sc != nil {
+					if sc.Name() == "NewInputStream" {
+						hasStream = true
+					}
+					if sc.Pkg == c.ExprS && sc.Signature.Results().Len() == 2 {
+						nCalls++
+						only = sc
+					}
+				}
+			}
+		})
+		if hasStream || nCalls != 1 || len(core.Blocks) != 1 {
+			break
+		}
+		// the single block returns exactly the callee's results
+		ret, ok := core.Blocks[0].Instrs[len(core.Blocks[0].Instrs)-1].(*ssa.Return)
+		direct := ok && len(ret.Results) == 2
+		if direct {
+			for i, rv := range ret.Results {
+				ex, ok := rv.(*ssa.Extract)
+				if !ok || ex.Index != i {
+					direct = false
+				} else if call, ok := ex.Tuple.(*ssa.Call); !ok || call.Common().StaticCallee() != only {
+					direct = false
+				}
+			}
+		}
+		if !direct {
+			break
+		}
+		core = only
+		r.SawFunc(core)
+	}
+	c.checkRecover(r, core)
+	c.checkParseReturns(r, core)
 	c.checkParseReach(r, parse)
-	c.checkParseInput(r, parse)
+	c.checkParseInput(r, core)
 	g := readGrammar(filepath.Join(c.Repo, "expr", "Expr.g4"))
 	if g.Err != "" {
 		r.Undecided("C17.anchor:grammar", "expr/Expr.g4", "cannot read the grammar: %s", g.Err)
@@ -298,6 +345,8 @@ func (c *Ctx) checkRecover(r *Report, parse *ssa.Function) {
 		if d, ok := in.(*ssa.Defer); ok {
 			if mc, ok := d.Call.Value.(*ssa.MakeClosure); ok {
 				deferred = mc.Fn.(*ssa.Function)
+			} else if sc := d.Call.StaticCallee(); sc != nil && sc.Pkg == parse.Pkg && len(sc.Blocks) > 0 {
+				deferred = sc // a named function deferred directly: recover() works in it
 			}
 		}
 	})
@@ -326,8 +375,13 @@ func (c *Ctx) checkRecover(r *Report, parse *ssa.Function) {
 		if !ok {
 			return
 		}
-		fv, ok := st.Addr.(*ssa.FreeVar)
-		if !ok {
+		var fvName string
+		switch a := st.Addr.(type) {
+		case *ssa.FreeVar:
+			fvName = a.Name()
+		case *ssa.Parameter:
+			fvName = a.Name()
+		default:
 			return
 		}
 		guarded := false
@@ -339,7 +393,7 @@ func (c *Ctx) checkRecover(r *Report, parse *ssa.Function) {
 		if !guarded {
 			return
 		}
-		switch fv.Name() {
+		switch fvName {
 		case "ret":
 			if isNilConst(st.Val) {
 				setRet = true
@@ -357,7 +411,9 @@ func (c *Ctx) checkRecover(r *Report, parse *ssa.Function) {
 			if !ok {
 				return
 			}
-			if _, ok := st.Addr.(*ssa.FreeVar); !ok {
+			switch st.Addr.(type) {
+			case *ssa.FreeVar, *ssa.Parameter:
+			default:
 				return
 			}
 			t := st.Val.Type().Underlying().String()
@@ -386,6 +442,40 @@ func (c *Ctx) checkRecover(r *Report, parse *ssa.Function) {
 			}
 		}
 	})
+	if !setRet {
+		// the map result needs no reset when it is nil whenever a panic can be in flight: the result cell is written
+		// only on return paths, with nothing that can panic between the store and the function's exit
+		clean, stores := true, 0
+		for _, b := range parse.Blocks {
+			for i, in := range b.Instrs {
+				st, ok := in.(*ssa.Store)
+				if !ok {
+					continue
+				}
+				al, ok := st.Addr.(*ssa.Alloc)
+				if !ok || !strings.HasPrefix(types.TypeString(al.Type().(*types.Pointer).Elem().Underlying(), nil), "map[") || len(parse.Signature.Results().At(0).Name()) == 0 || al.Comment != parse.Signature.Results().At(0).Name() {
+					continue
+				}
+				if isNilConst(st.Val) {
+					continue
+				}
+				stores++
+				for _, after := range b.Instrs[i+1:] {
+					switch after.(type) {
+					case *ssa.Store, *ssa.RunDefers, *ssa.Return, *ssa.UnOp, *ssa.DebugRef:
+					default:
+						clean = false
+					}
+				}
+				if _, ok := b.Instrs[len(b.Instrs)-1].(*ssa.Return); !ok {
+					clean = false
+				}
+			}
+		}
+		if clean && parse.Signature.Results().Len() == 2 && parse.Signature.Results().At(0).Name() != "" {
+			setRet = true
+		}
+	}
 	switch {
 	case !setRet || !setErr:
 		r.Fail(key, c.pos(deferred.Pos()), "on a recovered panic the results are not reset to (nil map, non-nil error) (ret reset=%v, err set=%v): the caller can receive a partial map together with no error", setRet, setErr)
